@@ -322,7 +322,7 @@ def kgraph_shard(args):
             except Exception:  # noqa
                 pass
         reqs.append({"cmd": "chain", "g": graphx.to_lean(nodes), "starts": [nd["uid"] for nd in starts],
-                     "groups": [[starts[k]["uid"] for k in grp] for grp in groups]})
+                     "groups": [[starts[k]["uid"] for k in grp] for grp in groups], "rk": graphx.rank(nodes)})
         meta.append((spec, [l[0] for l in live.log], nodes, starts, reals, history.has_shared_job(live.spec), groups, greals, issues))
         out["cases"] += 1
     answers = run_lean(reqs) if reqs else []
@@ -337,6 +337,18 @@ def kgraph_shard(args):
         elif ans.get("inv") is False:
             out["rejected_guarded"].append({"why": f"graph invariant violated after an accepted history: {issues[:2]}", "spec": spec, "ops": ops})
         sidname = {nd["sid"]: nd["sname"] for nd in nodes}
+        # hypotheses of `code_chain_accepted` / `code_update_order_correct`, evaluated by Lean on this real graph
+        hyp = bool(ans.get("wfOk")) and bool(ans.get("ancInChiOk")) and bool(ans.get("rankOk"))
+        out["hyp_met" if hyp else ("hyp_not_met_shared" if shared else "hyp_not_met_other")] = \
+            out.get("hyp_met" if hyp else ("hyp_not_met_shared" if shared else "hyp_not_met_other"), 0) + 1
+        if not hyp and not shared and not issues:
+            out["disagreements"].append({"why": f"a healthy graph without shared job does not meet the theorem's hypotheses: wfOk {ans.get('wfOk')} "
+                                                f"ancInChiOk {ans.get('ancInChiOk')} rankOk {ans.get('rankOk')}", "spec": spec, "ops": ops})
+        if hyp:
+            for nd, a in zip(starts, ans["chains"]):
+                if a != "hang" and not a["ok"]:
+                    out["disagreements"].append({"why": f"the theorem's hypotheses hold but the checker rejects the chain of {nd['sname']} (contradicts code_chain_accepted)",
+                                                 "spec": spec, "ops": ops})
         for nd, r, a in zip(starts, reals, ans["chains"]):
             out["starts"] += 1
             if a == "hang" or r == "hang":
